@@ -20,22 +20,48 @@ def _alarm(signum, frame):
     raise ReplayTimeout()
 
 
+_WARM = False
+
+
+def warm_up():
+    """compile the numba kernel (and import everything) before any timed replay: the time limits
+    below are about loops that do not terminate, not about JIT compilation"""
+    global _WARM
+    if _WARM:
+        return
+    _WARM = True
+    try:
+        import numpy as np
+        import pandas as pd
+        from pyins import strapdown, filters, measurements, inertial_sensor, error_model  # noqa: F401
+        from pyins.util import TRAJECTORY_COLS
+        pva = pd.Series([50.0, 30.0, 100.0, 1.0, -2.0, 0.0, 1.0, -2.0, 40.0], index=TRAJECTORY_COLS, name=0.0)
+        inc = pd.DataFrame([[0.1, 0, 0, 0, 0, 0, -0.981]], index=[0.1], columns=['dt', 'theta_x', 'theta_y', 'theta_z', 'dv_x', 'dv_y', 'dv_z'])
+        for wa in (True, False):
+            strapdown.Integrator(pva, wa).integrate(inc)
+    except Exception:      # noqa: BLE001
+        pass
+
+
 def run_one(spec):
     prop = spec['property']
     mod = importlib.import_module('pvf.props.%s' % prop.lower())
     limit = float(spec.get('time_limit', 60))
-    signal.signal(signal.SIGALRM, _alarm)
-    signal.setitimer(signal.ITIMER_REAL, limit)
+    warm_up()
+    # CPU time of this process, not wall time: a loaded machine must not turn a slow replay into a
+    # "does not terminate" verdict, while a loop that never ends burns CPU and is still caught
+    signal.signal(signal.SIGPROF, _alarm)
+    signal.setitimer(signal.ITIMER_PROF, limit)
     try:
         res = mod.replay(spec)
     except ReplayTimeout:
         res = {'violated': bool(spec.get('timeout_is_violation', False)),
-               'detail': 'did not finish within %.0f s' % limit, 'timeout': True}
+               'detail': 'did not finish within %.0f s of CPU time' % limit, 'timeout': True}
     except Exception as e:      # noqa: BLE001
         res = {'violated': False, 'error': '%s: %s' % (type(e).__name__, e),
                'traceback': traceback.format_exc(limit=8)}
     finally:
-        signal.setitimer(signal.ITIMER_REAL, 0)
+        signal.setitimer(signal.ITIMER_PROF, 0)
     return res
 
 
